@@ -261,6 +261,7 @@ class Path:
         self.valuation = {}      # atom -> value
         self.order = []          # atoms in the order consulted
         self.effects = []        # ('store', target term, value term) | ('call', term) | ...
+        self.heap = {}           # location term -> value stored on this path
         self.builders = {}       # fresh list number -> elements appended so
                                  # far (None once a mutation is not tracked)
         self.outcome = None      # ('return', term) | ('raise', cls, args) | ('fall',)
@@ -705,6 +706,13 @@ class Interp:
             base = self.eval(node.value, env)
             if base[0] == "global":
                 return ("global", base[1] + "." + node.attr)
+            if isinstance(node.ctx, ast.Load):
+                try:
+                    hit = self.path.heap.get(("attr", base, node.attr))
+                except TypeError:
+                    hit = None
+                if hit is not None:
+                    return hit
             if base[0] == "call" and base[1][0] == "global" \
                     and node.attr in NAMED_FIELDS.get(base[1][1], ()):
                 return ("index", base, const(
@@ -761,6 +769,13 @@ class Interp:
                     return ("copyof", base)
                 return ("slice", base, lo, hi)
             idx = self.eval(sl, env)
+            if isinstance(node.ctx, ast.Load):
+                try:
+                    hit = self.path.heap.get(("index", base, idx))
+                except TypeError:
+                    hit = None
+                if hit is not None:
+                    return hit
             if is_const(idx) and isinstance(idx[1], int) \
                     and base[0] not in ("tuple", "list", "dict"):
                 self.path.effects.append(("index-eval", base, idx,
@@ -1157,6 +1172,7 @@ class Interp:
             base = self.eval(tgt.value, env)
             self.path.effects.append(("store", ("attr", base, tgt.attr), val,
                                       node))
+            self._forward(("attr", base, tgt.attr), val)
         elif isinstance(tgt, ast.Subscript):
             base = self.eval(tgt.value, env)
             if isinstance(tgt.slice, ast.Slice):
@@ -1165,9 +1181,26 @@ class Interp:
             else:
                 key = self.eval(tgt.slice, env)
                 self.path.effects.append(("item-store", base, key, val, node))
+                self._forward(("index", base, key), val)
         else:
             raise AnalysisError("assignment target %s unsupported"
                                 % type(tgt).__name__)
+
+    def _forward(self, loc, val):
+        """Remember what this activation stored in a location, so that
+        reading it back yields the stored value (d[k] = []; d[k].append(x)).
+        A store through the same base with a possibly equal key forgets the
+        other entries of that base."""
+        h = self.path.heap
+        for other in list(h):
+            if other[0] == loc[0] and other[1] == loc[1] and other != loc \
+                    and not (loc[0] == "index" and is_const(other[2])
+                             and is_const(loc[2])) and loc[0] == "index":
+                del h[other]
+        try:
+            h[loc] = val
+        except TypeError:
+            pass
 
     def _stmt(self, st, env):
         if isinstance(st, ast.Expr):
@@ -1199,6 +1232,11 @@ class Interp:
             if st.exc is None:
                 raise _Raise("reraise", ())
             e = st.exc
+            if isinstance(e, ast.Call) and self._exc_name(
+                    e.func, env) in self.m.functions:
+                # raise helper(...): the helper builds the exception
+                t = self.eval(e, env)
+                raise _Raise("dynamic:" + fmt(t), (t,), st)
             if isinstance(e, ast.Call):
                 args = tuple(self.eval(a, env) for a in e.args)
                 cls = self._exc_name(e.func, env)
@@ -1506,43 +1544,53 @@ def is_unknown_helper(f):
 
 def carried_state_policy(fnode):
     """Loop policy for cross-checks: a loop that carries state from one
-    iteration to the next -- it can `break`, has an `else`, or binds a local
-    that is read after the loop or at the top of a later iteration -- is run
-    on two distinct representative elements ('twice'), so that what one
-    element leaves behind meets another element; every other loop is run on
-    one representative (its iterations are independent)."""
+    iteration to the next -- it can `break` or `return`, has an `else`, or
+    binds a local whose binding reaches a read in a later iteration or after
+    the loop -- is run on two distinct representative elements ('twice'), so
+    that what one element leaves behind meets another element; every other
+    loop is run on one representative (its iterations are independent)."""
     cache = {}
 
-    def own_breaks(loop):
+    def own_exits(loop):
         stack = list(loop.body)
         while stack:
             n = stack.pop()
-            if isinstance(n, ast.Break):
+            if isinstance(n, (ast.Break, ast.Return)):
                 return True
-            if isinstance(n, (ast.For, ast.While, ast.FunctionDef,
-                              ast.Lambda, ast.ClassDef)):
-                if isinstance(n, (ast.For, ast.While)):
-                    stack.extend(n.orelse)
+            if isinstance(n, (ast.FunctionDef, ast.Lambda, ast.ClassDef)):
+                continue
+            if isinstance(n, (ast.For, ast.While)):
+                # a break in there is the inner loop's; a return is ours too
+                stack.extend(x for x in ast.walk(n)
+                             if isinstance(x, ast.Return))
                 continue
             stack.extend(ast.iter_child_nodes(n))
         return False
+
+    def enclosing(loop):
+        p = getattr(loop, "_parent", None)
+        while p is not None and not isinstance(
+                p, (ast.FunctionDef, ast.AsyncFunctionDef)):
+            p = getattr(p, "_parent", None)
+        return p if p is not None else fnode
 
     def policy(loop):
         if loop in cache:
             return cache[loop]
         r = "once"
         if isinstance(loop, ast.For):
-            if loop.orelse or own_breaks(loop):
+            if loop.orelse or own_exits(loop):
                 r = "twice"
             else:
                 from . import cfg as _cfg
-                if "g" not in cache:
+                fn = enclosing(loop)
+                if ("g", fn) not in cache:
                     try:
-                        cache["g"] = _cfg.CFG(fnode)
+                        cache[("g", fn)] = _cfg.CFG(fn)
                     except Exception:
-                        cache["g"] = None
-                if cache["g"] is not None and _cfg.loop_carried_names(
-                        cache["g"], loop):
+                        cache[("g", fn)] = None
+                g = cache[("g", fn)]
+                if g is not None and _cfg.loop_carried_names(g, loop):
                     r = "twice"
         cache[loop] = r
         return r
